@@ -503,8 +503,10 @@ func maskDigits(s string) string {
 
 	run := false
 
-	for _, r := range s {
-		if r >= '0' && r <= '9' {
+	// byte by byte: a name is bytes, and one that is not UTF-8 must not be
+	// "repaired" on the way to the comparison
+	for i := 0; i < len(s); i++ {
+		if s[i] >= '0' && s[i] <= '9' {
 			if !run {
 				b.WriteByte('#')
 			}
@@ -516,7 +518,7 @@ func maskDigits(s string) string {
 
 		run = false
 
-		b.WriteRune(r)
+		b.WriteByte(s[i])
 	}
 
 	return b.String()
@@ -655,7 +657,10 @@ func buildOps(fsName, R, tier string) []fsx.Call {
 			fsx.Call{Op: "MkdirTemp", A: p, B: "t*"},
 			// several wildcards: only the last one stands for the random part
 			fsx.Call{Op: "CreateTemp", A: p, B: "t*u*v"},
-			fsx.Call{Op: "MkdirTemp", A: p, B: "*w*"},
+			// ... and the fixed part is not ASCII (see notASCII): the name that is
+			// made, listed, walked and removed holds a multi-byte character and a
+			// byte that is no UTF-8 at all
+			fsx.Call{Op: "MkdirTemp", A: p, B: "*" + notASCIIName + "*"},
 		)
 
 		if fsName == "MemFS" {
@@ -685,6 +690,8 @@ func buildOps(fsName, R, tier string) []fsx.Call {
 
 	if fsName == "MemFS" {
 		targets := []string{"a", "ab", "a/a", "../a", "../ab", ".", "nope", R + "/a", R + "/nope"}
+		targets = append(targets, notASCIITargets(tier)...)
+
 		for _, t := range targets {
 			for _, q := range paths {
 				ops = append(ops, fsx.Call{Op: "Symlink", A: t, B: q})
@@ -693,6 +700,33 @@ func buildOps(fsName, R, tier string) []fsx.Call {
 	}
 
 	return ops
+}
+
+// Strings are bytes. Names and link targets are whatever bytes the caller
+// passed (the kernel forbids only NUL and, in a name, '/'): every length the
+// file system reports (the size of a symbolic link is the length of its target
+// in BYTES), every name it lists and every target it gives back is counted and
+// kept in bytes. An alphabet that is ASCII throughout cannot tell bytes from
+// characters: code that counts runes or UTF-16 units, or that rebuilds a string
+// rune by rune (an invalid byte becomes U+FFFD, three bytes), is right on it.
+// So the alphabet holds a link target and a name whose lengths in bytes, in
+// runes and in UTF-16 units all differ, and a byte that is not UTF-8; sizes,
+// names and Readlink values are compared with the kernel as everywhere else.
+//
+// The name costs no state: it is the fixed part of a MkdirTemp pattern that
+// had an arbitrary ASCII letter there. The targets are dangling relative ones.
+const notASCIIName = "\u00e9\xff" // 'é' (2 bytes) and a lone 0xff: 3 bytes, 2 runes, 5 bytes once re-encoded
+
+func notASCIITargets(tier string) []string {
+	// 'é' (2 bytes, 1 UTF-16 unit) and U+10348 (4 bytes, 2 UTF-16 units): 6 bytes, 2 runes, 3 units
+	t := []string{"\u00e9\U00010348"}
+
+	if tier == "thorough" {
+		// not UTF-8: a lone continuation byte and a truncated sequence around an ASCII letter
+		t = append(t, "\x80a\xc3")
+	}
+
+	return t
 }
 
 func factory(tier string) func(string) bfs.System {
@@ -828,7 +862,7 @@ func main() {
 		Coverage: map[string]any{
 			"states": states, "transitions": trans, "traces_validated_against_impl": trans,
 			"evaluations": trans, "distinct_nontrivial": len(outcomes),
-			"rule":       "every history of length <= bound over the call alphabet executed on a fresh emulated file system and, in lock-step, through OsFS on a fresh tmpfs directory at the same absolute path; Chmod, Mkdir and WriteFile (thorough: MkdirAll too) also with a mode argument that carries file type bits, which package os ignores; distinct_nontrivial = distinct (call, kernel outcome) classes observed",
+			"rule":       "every history of length <= bound over the call alphabet executed on a fresh emulated file system and, in lock-step, through OsFS on a fresh tmpfs directory at the same absolute path; Chmod, Mkdir and WriteFile (thorough: MkdirAll too) also with a mode argument that carries file type bits, which package os ignores; names and link targets are bytes: one dangling link target whose length in bytes, in runes and in UTF-16 units differ (thorough: also one that is not UTF-8) and the fixed part of a MkdirTemp pattern with a multi-byte character and a byte that is not UTF-8, so that sizes of links, listed names and Readlink values are compared with the kernel on non-ASCII strings; distinct_nontrivial = distinct (call, kernel outcome) classes observed",
 			"samples":    samples,
 			"exhaustive": exh, "bound": fmt.Sprintf("histories of length <= %d (completed %d)", d, depthDone),
 			"systems": all, "known_findings_matched": rep.KnownMatched(),
@@ -838,6 +872,7 @@ func main() {
 			"state identity = kernel-side tree dump + cwd (never depends on the code under test)",
 			"long random histories (clause ii of the quantifier) are sampling and are not run; replaced by the exhaustive bound",
 			"symlink calls only on MemFS (OrefaFS does not advertise FeatSymlink)",
+			"non-ASCII strings: one link target (MemFS) and one temporary directory name per tier hold multi-byte and (name; thorough: target too) invalid UTF-8 bytes; the names a, ab (c) of the path alphabet stay ASCII",
 		},
 		Violations: rep.NewCount(),
 	})
